@@ -56,12 +56,30 @@ type Server struct {
 	mu   sync.Mutex
 }
 
+// Listen opens a loopback listener. When the machine has (briefly) run out of ephemeral ports - thousands of
+// short connections per second leave sockets in TIME_WAIT - it waits and tries again.
 func Listen() (*Server, error) {
-	l, err := net.Listen("tcp", "127.0.0.1:0")
-	if err != nil {
-		return nil, err
+	var err error
+	for i := 0; i < 120; i++ {
+		var l net.Listener
+		l, err = net.Listen("tcp", "127.0.0.1:0")
+		if err == nil {
+			return &Server{L: l, Addr: l.Addr().String()}, nil
+		}
+		time.Sleep(250 * time.Millisecond)
 	}
-	return &Server{L: l, Addr: l.Addr().String()}, nil
+	return nil, err
+}
+
+// HardClose closes a TCP connection with RST, so that no socket lingers in TIME_WAIT.
+func HardClose(c net.Conn) {
+	if c == nil {
+		return
+	}
+	if t, ok := c.(*net.TCPConn); ok {
+		t.SetLinger(0)
+	}
+	c.Close()
 }
 
 func (s *Server) Close() { s.L.Close() }
@@ -395,6 +413,7 @@ type NegotiateOpts struct {
 	Jid      string
 	// Resumable: accept <resume previd=SMID/> with <resumed/>
 	AcceptResume bool
+	ResumedH     int // the h the server reports in <resumed/>
 }
 
 type NegotiateResult struct {
@@ -453,7 +472,7 @@ func (c *Conn) Negotiate(o NegotiateOpts, timeout time.Duration) (*NegotiateResu
 		res.PrevID, res.ResumeH = e.Attr["previd"], e.Attr["h"]
 		if o.AcceptResume {
 			res.Resumed = true
-			return res, c.Write("<resumed xmlns='" + NSSM + "' previd='" + e.Attr["previd"] + "' h='0'/>")
+			return res, c.Write("<resumed xmlns='" + NSSM + "' previd='" + e.Attr["previd"] + "' h='" + fmt.Sprint(o.ResumedH) + "'/>")
 		}
 		if err := c.Write("<failed xmlns='" + NSSM + "'/>"); err != nil {
 			return res, err
